@@ -100,6 +100,27 @@ func RunPipeline(seed int64, tier, driver, outDir string, n int, search bool, co
 	for i := 0; i < n; i++ {
 		cases = append(cases, GenCase(r, tier))
 	}
+	// the persistent backends side by side with the in-memory one
+	nbk := 24
+	if tier == "thorough" {
+		nbk = 300
+	}
+	if search {
+		nbk *= 3
+	}
+	if n == 0 {
+		nbk = 0 // replay of fixed cases only
+	}
+	for i := 0; i < nbk; i++ {
+		c := GenCase(r, tier)
+		c.Bk = "bbolt,badger,gorm"
+		c.Batch = []int{1, 2, 3, 5, 100}[r.Intn(5)]
+		if r.Intn(4) != 0 {
+			c.Cfg.Max = 1000
+		}
+		c.Tag = "backends"
+		cases = append(cases, c)
+	}
 	runs := make([]*Run, len(cases))
 	var wg sync.WaitGroup
 	ch := make(chan int)
@@ -134,7 +155,7 @@ func RunPipeline(seed int64, tier, driver, outDir string, n int, search bool, co
 	}
 	failSeen := map[string]bool{}
 	seen := map[string]bool{}
-	recs, qs, qhits, qerrs, rotated := 0, 0, 0, 0, 0
+	recs, qs, qhits, qerrs, rotated, bkq := 0, 0, 0, 0, 0, 0
 	for i, run := range runs {
 		c := cases[i]
 		res.Cases++
@@ -145,6 +166,7 @@ func RunPipeline(seed int64, tier, driver, outDir string, n int, search bool, co
 		qs += run.Queries
 		qhits += run.QHits
 		qerrs += run.QErrs
+		bkq += run.BkQueries
 		if c.Cfg.Max > 0 && run.Txs > c.Cfg.Max && run.Records == c.Cfg.Max {
 			rotated++
 		}
@@ -190,7 +212,7 @@ func RunPipeline(seed int64, tier, driver, outDir string, n int, search bool, co
 			res.Failures = append(res.Failures, core.FailRec{Prop: "C17", Msg: msg, File: file})
 		}
 	}
-	res.Extra = map[string]any{"records": recs, "queries": qs, "queries_with_hits": qhits, "query_errors": qerrs, "cases_rotated_at_max": rotated}
+	res.Extra = map[string]any{"records": recs, "queries": qs, "queries_with_hits": qhits, "query_errors": qerrs, "cases_rotated_at_max": rotated, "backend_queries_compared": bkq}
 	res.WallS = time.Since(t0).Seconds()
 	return res
 }
